@@ -80,7 +80,7 @@ def mutants_table():
         if o == 'missed' and r['id'] in eq: o = 'equivalent'
         by.setdefault(r.get('area', ''), {}).setdefault(o, []).append(r)
     tot = {}
-    rows = ['| area | mutants | detected (by check) | killed by the pinned unit tests | equivalent | missed |', '|---|---|---|---|---|---|']
+    rows = ['| area | mutants | detected (by check) | killed by the pinned unit tests | equivalent / outside the properties | missed |', '|---|---|---|---|---|---|']
     for a in sorted(by):
         d = by[a]
         n = sum(len(v) for v in d.values())
